@@ -21,12 +21,20 @@ def digitVal (c : Char) : Option Nat :=
   else if 'A' ≤ c && c ≤ 'F' then some (c.toNat - 'A'.toNat + 10)
   else none
 
+/-- a char as a digit of `base` -/
+def digitOf (base : Nat) (c : Char) : Option Nat :=
+  match digitVal c with
+  | some d => if d < base then some d else none
+  | none => none
+
+def digitStep (base : Nat) (acc : Option Nat) (c : Char) : Option Nat :=
+  match acc, digitOf base c with
+  | some a, some d => some (a * base + d)
+  | _, _ => none
+
 /-- value of a digit string in `base`; `none` if a char is not a digit of the base or the string is empty -/
 def natOfDigits (base : Nat) (cs : List Char) : Option Nat :=
-  if cs.isEmpty then none else
-  cs.foldl (fun acc c => match acc, digitVal c with
-    | some a, some d => if d < base then some (a * base + d) else none
-    | _, _ => none) (some 0)
+  if cs.isEmpty then none else cs.foldl (digitStep base) (some 0)
 
 def u128Max : Nat := 2 ^ 128
 def u64Max : Nat := 2 ^ 64
